@@ -290,7 +290,8 @@ impl From<IotaDID> for CoreDID {
 
 impl From<IotaDID> for String {
   fn from(did: IotaDID) -> Self {
-    did.into_string()
+    // Not `did.into_string()`: that is `DID::into_string`, which is implemented as `self.into()`, i.e. this function.
+    String::from(did.0)
   }
 }
 
